@@ -128,8 +128,11 @@ class Subscription(OneShotTask, DebugContents):
         if self.isScheduled:
             self.suspend_task()
 
+        # the new lifetime replaces the old one
+        self.lifetime = lifetime
+
         # reschedule the task if its not infinite
-        if lifetime != 0:
+        if lifetime:
             self.install_task(delta=lifetime)
 
     def process_task(self):
@@ -731,6 +734,7 @@ class ChangeOfValueServices(Capability):
                 self.cancel_subscription(cov)
             else:
                 if _debug: ChangeOfValueServices._debug("    - renew the subscription")
+                cov.confirmed = confirmed
                 cov.renew_subscription(lifetime)
         else:
             if cancel_subscription:
@@ -810,6 +814,7 @@ class ChangeOfValueServices(Capability):
                 self.cancel_subscription(cov)
             else:
                 if _debug: ChangeOfValueServices._debug("    - renew the subscription")
+                cov.confirmed = confirmed
                 cov.renew_subscription(lifetime)
         else:
             if cancel_subscription:
